@@ -15,7 +15,7 @@ struct CsvCtype : std::ctype<char> {
 };
 static const char *const AKN[AK__COUNT] = {"schar", "uchar", "short", "ushort", "int", "uint", "long", "ulong", "llong", "ullong", "bool", "char", "wchar_t",
     "char16_t", "char32_t", "char8_t", "float", "double", "complex", "cstr", "wcstr", "c16str", "c32str", "c8str", "ST::string", "std::string", "wstring",
-    "u16string", "u32string", "u8string", "string_view", "wstring_view", "u16string_view", "u32string_view", "u8string_view", "null_cstr", "raw_bytes"};
+    "u16string", "u32string", "u8string", "string_view", "wstring_view", "u16string_view", "u32string_view", "u8string_view", "null_cstr", "raw_bytes", "nested_format"};
 const char *arg_kind_name(int k) { return (k >= 0 && k < AK__COUNT) ? AKN[k] : "?"; }
 static const char *const SKN[SK__COUNT] = {"printf(FILE*)", "writef<char>", "writef<wchar_t>", "writef<char16_t>", "writef<char32_t>", "ostream<<", "wostream<<",
     "u16ostream<<", "u32ostream<<", "istream>>", "wistream>>", "format_latin_1", "printf(stdout)", "format(validation)/_stfmt"};
@@ -178,6 +178,12 @@ void format_type(const ST::format_spec &f, ST::format_writer &o, const AnyArg &a
     case AK_U16SV: ST::format_type(f, o, std::u16string_view(a.s16)); break;
     case AK_U32SV: ST::format_type(f, o, std::u32string_view(a.s32)); break;
     case AK_U8SV: ST::format_type(f, o, std::u8string_view(a.su8)); break;
+    case AK_NESTED: {
+        // a user-defined formatter that itself formats: it builds its text with a complete, nested ST::format / _stfmt call and hands the result on
+        using namespace ST::literals;
+        ST::string inner = (a.i & 1) ? ST::format("({}|{>4})", a.i, a.s8) : "<{}:{x}>"_stfmt(a.s8, (unsigned)a.i);
+        ST::format_type(f, o, inner);
+        break; }
     default: ST::format_type(f, o, (const char *)nullptr); break;
     }
 }
@@ -198,6 +204,7 @@ static AnyArg make_arg(const Plan &p, const ArgSpec &a) {
         x.s8 = (a.v & 1) ? std::string("\xA9") : std::string("\xC3");
         return x;
     }
+    if (x.kind == AK_NESTED) { Scalars sc = source_text(p.data_seed, a.v, a.n % 20, p.text_mix); enc8(sc, x.s8); return x; }
     if (x.kind >= AK_CSTR && x.kind <= AK_U8SV) {
         Scalars sc = source_text(p.data_seed, a.v, a.n, p.text_mix);
         enc8(sc, x.s8); x.sw.assign(sc.begin(), sc.end()); enc16(sc, x.s16); x.s32 = sc;
@@ -615,7 +622,7 @@ Plan gen_plan(uint64_t runseed) {
     } else {
         static const uint8_t KINDS[] = {AK_SCHAR, AK_UCHAR, AK_SHORT, AK_USHORT, AK_INT, AK_INT, AK_UINT, AK_LONG, AK_ULONG, AK_LLONG, AK_ULLONG, AK_BOOL, AK_CHAR, AK_WCHAR, AK_CHAR16,
                                         AK_CHAR32, AK_CHAR8, AK_FLOAT, AK_DOUBLE, AK_DOUBLE, AK_COMPLEX, AK_CSTR, AK_CSTR, AK_WCSTR, AK_C16STR, AK_C32STR, AK_C8STR, AK_STSTRING, AK_STSTRING,
-                                        AK_STDSTRING, AK_WSTRING, AK_U16STRING, AK_U32STRING, AK_U8STRING, AK_SV, AK_WSV, AK_U16SV, AK_U32SV, AK_U8SV, AK_NULLCSTR};
+                                        AK_STDSTRING, AK_WSTRING, AK_U16STRING, AK_U32STRING, AK_U8STRING, AK_SV, AK_WSV, AK_U16SV, AK_U32SV, AK_U8SV, AK_NULLCSTR, AK_NESTED};
         for (unsigned i = 0; i < nargs; i++) {
             ArgSpec a; a.kind = KINDS[r.below(sizeof KINDS)]; a.v = r.below(1 << 16);
             static const uint32_t LEN[] = {0, 1, 3, 5, 15, 16, 17, 40, 300};
